@@ -60,7 +60,8 @@ use vx::fx::{self, EdKey, RealVerifier};
 use vx::{guard, json, Ctx, Level};
 
 const H: &str = "did:example:holder";
-const OTHER: &str = "did:example:other";
+// a foreign DID that EXTENDS the holder DID by one character (so that a prefix comparison of DIDs confuses the two)
+const OTHER: &str = "did:example:holder2";
 /// 9999-12-31T23:59:59Z and 0000-01-01T00:00:00Z
 const MAX_TS: i64 = 253_402_300_799;
 const MIN_TS: i64 = -62_167_219_200;
